@@ -250,6 +250,9 @@ def generate(rng, tier):
             cases.append(dict(kind="p2i", mesh=m, cls=cls, p=p))
         if rng.random() < 0.15:
             cases.append(dict(kind="p2i", mesh=m, cls="wrong-length", p=[S(0)] * (len(m["n"]) + 1)))
+        if rng.random() < 0.2:
+            cases.append(dict(kind="nonfinite", mesh=m, axis=rng.randrange(len(m["n"])),
+                              what=rng.choice(["nan", "inf", "-inf"]), np_type=rng.random() < 0.5))
         if math.prod(m["n"]) <= 64:
             cases.append(dict(kind="lattice", mesh=m))
     for k in range(nm * 2):
@@ -331,9 +334,7 @@ def derive_mesh(rng, m):
     d["p1"] = [S(x) for x in mesh.region.pmin.tolist()]
     d["p2"] = [S(x) for x in mesh.region.pmax.tolist()]
     d["n"] = [int(k) for k in mesh.n]
-    # Region.rotate90 evaluates cos/sin in floating point: corners carry a 1e-16 residue afterwards
-    if any(op[0] == "mesh.rotate90" for op in ops):
-        d["exact"] = False
+    # (Region.rotate90 uses the exact quarter-turn matrix since 9b30ddbb: rotated dyadic lattices stay exact)
     if any(F(a) == F(b) for a, b in zip(d["p1"], d["p2"])):
         return None
     return d
@@ -422,6 +423,20 @@ def run_case(c):
     lo, hi, cell = mesh_geom(m)
     n = m["n"]
     sc = scale_of(m)
+    if kind == "nonfinite":
+        # a point with a NaN / infinite coordinate lies in no cell: not contained, no index (oracle only: Q has no NaN)
+        bad = {"nan": float("nan"), "inf": float("inf"), "-inf": float("-inf")}[c["what"]]
+        p = [float(x) for x in mesh.region.center]
+        p[c["axis"]] = np.float64(bad) if c["np_type"] else bad
+        st, idx = attempt(lambda: mesh.point2index(tuple(p)))
+        st_in, isin = attempt(lambda: bool(tuple(p) in mesh.region))
+        if st == "ok":
+            rec["oracle"].append("nonfinite-point-indexed")
+        if st_in == "ok" and isin:
+            rec["oracle"].append("nonfinite-point-contained")
+        rec.update(obs=dict(p2i=st, isin=(isin if st_in == "ok" else st_in)), coq=None,
+                   key=f'nonfinite/{c["what"]}/{len(n)}', size=len(n))
+        return rec
     if kind == "i2p":
         i = c["i"]
         st, p = attempt(lambda: mesh.index2point(tuple(i)))
